@@ -13,7 +13,8 @@ import statistics
 from schema_markdown import parse_schema_markdown, validate_type
 
 from .parser import parse_expression
-from .value import value_boolean, value_compare, value_json, value_parse_datetime, value_parse_number
+from .value import value_boolean, value_compare, value_json, value_normalize_datetime, value_parse_datetime, \
+    value_parse_number, value_type
 
 
 # Helper to dynamically import evaluate_expression to avoid the circular dependency
@@ -199,7 +200,7 @@ def join_data(left_data, right_data, join_expr, right_expr=None, is_left_join=Fa
         # Bucket the right rows by the right expression value
         right_category_rows = {}
         for right_row in right_data:
-            category_key = value_json(evaluate_expression(right_expression, eval_options, right_row))
+            category_key = _bucket_key(evaluate_expression(right_expression, eval_options, right_row))
             if category_key not in right_category_rows:
                 right_category_rows[category_key] = []
             right_category_rows[category_key].append(right_row)
@@ -207,7 +208,7 @@ def join_data(left_data, right_data, join_expr, right_expr=None, is_left_join=Fa
         # Join the left with the right
         data = []
         for left_row in left_data:
-            category_key = value_json(evaluate_expression(left_expression, eval_options, left_row))
+            category_key = _bucket_key(evaluate_expression(left_expression, eval_options, left_row))
             if category_key in right_category_rows:
                 for right_row in right_category_rows[category_key]:
                     join_row = dict(left_row)
@@ -306,6 +307,19 @@ def filter_data(data, expr, variables=None, options=None):
     return result
 
 
+# Helper to compute a hashable bucket key for a value - values of different types never share a key
+def _bucket_key(value):
+    if isinstance(value, list):
+        return ('array', tuple(_bucket_key(item) for item in value))
+    elif isinstance(value, dict):
+        return ('object', tuple((key, _bucket_key(value[key])) for key in sorted(value.keys())))
+    elif isinstance(value, datetime.date):
+        return ('datetime', value_normalize_datetime(value))
+    elif value is None or isinstance(value, (str, bool, int, float)):
+        return (value_type(value), value)
+    return ('other', id(value))
+
+
 # Helper to carry the statement count of a copied evaluation options object back to the caller's options
 def _eval_options_done(options, eval_options):
     if options is not None and eval_options is not options and 'statementCount' in eval_options:
@@ -335,7 +349,7 @@ def aggregate_data(data, aggregation):
         category_values = [row.get(category) for category in categories] if categories is not None else None
 
         # Get or create the aggregate row
-        row_key = value_json(category_values) if category_values is not None else ''
+        row_key = _bucket_key(category_values) if category_values is not None else ''
         if row_key in category_rows:
             aggregate_row = category_rows[row_key]
         else:
@@ -476,7 +490,7 @@ def top_data(data, count, category_fields=None):
     category_rows = {}
     category_order = []
     for row in data:
-        category_key = '' if category_fields is None else value_json([row.get(field) for field in category_fields])
+        category_key = '' if category_fields is None else _bucket_key([row.get(field) for field in category_fields])
         if category_key not in category_rows:
             category_rows[category_key] = []
             category_order.append(category_key)
